@@ -221,10 +221,11 @@ Record Inv (h : list (Z * op)) (st : state) : Prop := {
 Lemma restore_state W now pid off st :
   st_packets (fst (restore W now pid off st)) = st_packets st /\
   (st_sessions (fst (restore W now pid off st)) = st_sessions st \/
-   st_sessions (fst (restore W now pid off st)) = sess_del pid (st_sessions st)).
+   (st_sessions (fst (restore W now pid off st)) = sess_del pid (st_sessions st) /\
+    exists s td, sess_get pid (st_sessions st) = Some (s, td) /\ sess_expired W now td = true)).
 Proof.
   unfold restore. destruct (sess_get pid (st_sessions st)) as [[s td]|]; simpl; auto.
-  destruct (sess_expired W now td); simpl; auto.
+  destruct (sess_expired W now td) eqn:X; simpl; eauto 8.
   destruct (after_offset off (st_packets st)); simpl; auto.
 Qed.
 
@@ -268,10 +269,10 @@ Proof.
     rewrite step_restore_fst.
     destruct (restore_state W t pid off st) as [EP ES].
     constructor.
-    + destruct ES as [-> | ->]; auto. now apply keys_del_nodup.
+    + destruct ES as [-> | [-> _]]; auto. now apply keys_del_nodup.
     + rewrite EP. exists d. rewrite emitted_app. simpl. now rewrite app_nil_r.
     + intros q v H. rewrite last_persist_app. simpl. apply S.
-      destruct ES as [E | E]; rewrite E in H; auto.
+      destruct ES as [E | [E _]]; rewrite E in H; auto.
       destruct (N.eq_dec pid q) as [->|NE].
       * rewrite sess_get_del_same in H. discriminate.
       * now rewrite sess_get_del_other in H.
@@ -461,4 +462,275 @@ Proof.
   destruct (after_offset off (st_packets (final W h))) as [rest|] eqn:A; auto.
   exfalso. apply H. destruct (after_offset_split _ _ _ A) as [l1 [p [E Hp]]].
   rewrite L, E, !map_app. apply in_or_app. right. apply in_or_app. right. simpl. auto.
+Qed.
+
+(** * Liveness: within the window, with the offset packet not yet expired, the session is recovered *)
+
+Lemma times_sorted_ge prev h : times_sorted prev h = true -> Forall (fun e => prev <= fst e) h.
+Proof.
+  revert prev. induction h as [|[t o] h IH]; simpl; intros prev H; constructor.
+  - apply andb_true_iff in H as [H _]. apply Z.leb_le in H. exact H.
+  - apply andb_true_iff in H as [H1 H2]. apply Z.leb_le in H1.
+    eapply Forall_impl; [|apply (IH _ H2)]. simpl. intros. lia.
+Qed.
+
+Lemma times_sorted_snoc prev h t o :
+  times_sorted prev (h ++ [(t, o)]) = true ->
+  times_sorted prev h = true /\ Forall (fun e => fst e <= t) h.
+Proof.
+  revert prev. induction h as [|[t1 o1] h IH]; simpl; intros prev H; auto.
+  apply andb_true_iff in H as [H1 H2].
+  destruct (IH _ H2) as [S F]. rewrite H1, S. split; auto. constructor; auto. simpl.
+  apply times_sorted_ge in H2. rewrite Forall_forall in H2.
+  apply (H2 (t, o)). apply in_or_app. right. now left.
+Qed.
+
+Lemma at_sorted_app_r l1 l2 : at_sorted (l1 ++ l2) -> at_sorted l2.
+Proof. induction l1; simpl; auto. intros [_ H]. auto. Qed.
+
+Lemma at_sorted_app_l l1 l2 : at_sorted (l1 ++ l2) -> at_sorted l1.
+Proof.
+  induction l1 as [|a l1 IH]; simpl; auto. intros [H1 H2]. split; auto.
+  intros b Hb. apply H1. apply in_or_app. auto.
+Qed.
+
+Lemma emitted_sorted prev h :
+  times_sorted prev h = true ->
+  (forall b, In b (emitted h) -> prev <= p_at b) /\ at_sorted (emitted h).
+Proof.
+  revert prev. induction h as [|[t o] h IH]; simpl; intros prev H.
+  - split; [contradiction | exact I].
+  - apply andb_true_iff in H as [H1 H2]. apply Z.leb_le in H1.
+    destruct (IH _ H2) as [G S].
+    assert (forall b, In b (emitted h) -> prev <= p_at b) as G' by (intros b Hb; specialize (G b Hb); lia).
+    destruct o as [k id opts| | |]; auto.
+    destruct (loggable k); auto. simpl. split.
+    + intros b [<-|Hb]; simpl; auto.
+    + split; auto.
+Qed.
+
+Lemma sess_retained W t h :
+  Forall (fun e => fst e <= t) h ->
+  forall pid s td, last_persist pid h None = Some (s, td) -> t <= td + W ->
+    sess_get pid (st_sessions (final W h)) = Some (s, td).
+Proof.
+  induction h as [|[t0 o] h IH] using rev_ind; intros F pid s td LP X.
+  - discriminate.
+  - apply Forall_app in F as [F F0]. inversion F0 as [|? ? T0 _]; subst. simpl in T0.
+    specialize (IH F). rewrite last_persist_app in LP. rewrite final_snoc.
+    destruct (inv_final W h) as [K _ _].
+    destruct o as [k id opts | s0 | | q off].
+    + simpl in LP. unfold step. simpl. destruct (loggable k); simpl; auto.
+    + simpl in LP. unfold step. cbn [step_with fst st_sessions].
+      destruct (N.eqb (s_pid s0) pid) eqn:E.
+      * apply N.eqb_eq in E. inversion LP; subst. apply sess_get_set_same.
+      * rewrite sess_get_set_other by (intros Q; rewrite Q, N.eqb_refl in E; discriminate). auto.
+    + simpl in LP. unfold step. cbn [step_with fst st_sessions]. unfold clean_sessions.
+      rewrite sess_get_filter by auto. rewrite (IH _ _ _ LP X). simpl.
+      assert (sess_expired W t0 td = false) as -> by (apply Z.ltb_ge; lia). reflexivity.
+    + simpl in LP. rewrite step_restore_fst.
+      destruct (restore_state W t0 q off (final W h)) as [_ [E | [E [s' [td' [G X']]]]]]; rewrite E; auto.
+      destruct (N.eq_dec q pid) as [->|NE].
+      * rewrite (IH _ _ _ LP X) in G. inversion G; subst.
+        apply Z.ltb_lt in X'. lia.
+      * rewrite sess_get_del_other; auto.
+Qed.
+
+Lemma pkt_retained W t h :
+  Forall (fun e => fst e <= t) h -> at_sorted (emitted h) ->
+  forall p, In p (emitted h) -> t <= p_at p + W -> In p (st_packets (final W h)).
+Proof.
+  induction h as [|[t0 o] h IH] using rev_ind; intros F S p HI X.
+  - contradiction.
+  - apply Forall_app in F as [F F0]. inversion F0 as [|? ? T0 _]; subst. simpl in T0.
+    rewrite emitted_app in S, HI. specialize (IH F (at_sorted_app_l _ _ S)).
+    rewrite final_snoc.
+    destruct (inv_final W h) as [_ [d L] _].
+    destruct o as [k id opts | s0 | | q off].
+    + unfold step. simpl in *. destruct (loggable k); simpl in *.
+      * apply in_app_or in HI as [HI|HI]; apply in_or_app; auto.
+      * rewrite app_nil_r in HI. auto.
+    + unfold step. simpl in *. rewrite app_nil_r in HI. auto.
+    + unfold step. simpl in *. rewrite app_nil_r in HI.
+      rewrite clean_packets_filter.
+      * apply filter_In. split; auto. unfold pkt_expired.
+        assert (p_at p + W <? t0 = false) as -> by (apply Z.ltb_ge; lia). reflexivity.
+      * apply at_sorted_app_l in S. rewrite L in S. eapply at_sorted_app_r; eauto.
+    + rewrite step_restore_fst.
+      destruct (restore_state W t0 q off (final W h)) as [-> _].
+      simpl in HI. rewrite app_nil_r in HI. auto.
+Qed.
+
+Theorem recovers_in_window W h t t0 pid off s td p :
+  times_sorted t0 (h ++ [(t, ORestore pid off)]) = true ->
+  last_persist pid h None = Some (s, td) -> t <= td + W ->
+  In p (emitted h) -> p_id p = off -> t <= p_at p + W ->
+  exists ms, snd (step W t (ORestore pid off) (final W h)) = Some (Some (s, ms)).
+Proof.
+  intros TS LP X HI Hp Xp.
+  apply times_sorted_snoc in TS as [TS F].
+  pose proof (sess_retained W t h F _ _ _ LP X) as G.
+  pose proof (pkt_retained W t h F (proj2 (emitted_sorted _ _ TS)) p HI Xp) as HP.
+  destruct (after_offset_in off _ p HP Hp) as [rest A].
+  rewrite step_restore_snd. unfold restore. rewrite G.
+  assert (sess_expired W t td = false) as -> by (apply Z.ltb_ge; lia).
+  rewrite A. simpl. eauto.
+Qed.
+
+(** * Which packets a session selects (shouldIncludePacket, declaratively) *)
+
+Lemma mem_in r l : mem r l = true <-> In r l.
+Proof.
+  unfold mem. rewrite existsb_exists. split.
+  - intros [x [H E]]. apply N.eqb_eq in E. now subst.
+  - intros H. exists r. split; auto. apply N.eqb_refl.
+Qed.
+
+Theorem should_include_spec rooms o :
+  should_include rooms o = true <->
+  (o_rooms o = [] \/ exists r, In r rooms /\ In r (o_rooms o)) /\
+  (forall r, In r rooms -> ~ In r (o_except o)).
+Proof.
+  unfold should_include. rewrite andb_true_iff, orb_true_iff, negb_true_iff. split.
+  - intros [[H|H] NX]; split.
+    + left. destruct (o_rooms o); auto; discriminate.
+    + intros r Hr HI. assert (existsb (fun r => mem r (o_except o)) rooms = true); [|congruence].
+      apply existsb_exists. exists r. split; auto. now apply mem_in.
+    + right. apply existsb_exists in H as [r [Hr M]]. exists r. split; auto. now apply mem_in.
+    + intros r Hr HI. assert (existsb (fun r => mem r (o_except o)) rooms = true); [|congruence].
+      apply existsb_exists. exists r. split; auto. now apply mem_in.
+  - intros [H NX]. split.
+    + destruct H as [->|[r [Hr HI]]]; [now left|]. right. apply existsb_exists. exists r.
+      split; auto. now apply mem_in.
+    + destruct (existsb (fun r => mem r (o_except o)) rooms) eqn:E; auto. apply existsb_exists in E as [r [Hr M]].
+      apply mem_in in M. exfalso. eapply NX; eauto.
+Qed.
+
+(** * Several sessions recovering from the same log are independent *)
+
+Definition concerns (p : N) (o : op) : bool :=
+  match o with
+  | OPersist s => N.eqb (s_pid s) p
+  | ORestore q _ => N.eqb q p
+  | _ => true
+  end.
+
+(** the history with every persist / restore of the other sessions removed *)
+Definition proj (p : N) (h : list (Z * op)) : list (Z * op) := filter (fun e => concerns p (snd e)) h.
+
+(** results of the restores of session [p], in order *)
+Fixpoint results_for (p : N) (h : list (Z * op)) (rs : list (option rresult)) : list rresult :=
+  match h, rs with
+  | (_, ORestore q _) :: h', Some r :: rs' =>
+      if N.eqb q p then r :: results_for p h' rs' else results_for p h' rs'
+  | _ :: h', _ :: rs' => results_for p h' rs'
+  | _, _ => []
+  end.
+
+Definition same_view (p : N) (a b : state) : Prop :=
+  st_packets a = st_packets b /\ sess_get p (st_sessions a) = sess_get p (st_sessions b) /\
+  NoDup (map fst (st_sessions a)) /\ NoDup (map fst (st_sessions b)).
+
+Lemma step_keys W t o st :
+  NoDup (map fst (st_sessions st)) -> NoDup (map fst (st_sessions (fst (step W t o st)))).
+Proof.
+  intros K. destruct o as [k id opts | s | | q off].
+  - unfold step. simpl. destruct (loggable k); auto.
+  - unfold step. simpl. exact (keys_set_nodup (s_pid s) (s, t) _ K).
+  - unfold step. simpl. unfold clean_sessions. now apply NoDup_map_filter.
+  - rewrite step_restore_fst.
+    destruct (restore_state W t q off st) as [_ [-> | [-> _]]]; auto. now apply keys_del_nodup.
+Qed.
+
+Lemma step_other W t o p st :
+  concerns p o = false ->
+  st_packets (fst (step W t o st)) = st_packets st /\
+  sess_get p (st_sessions (fst (step W t o st))) = sess_get p (st_sessions st).
+Proof.
+  destruct o as [k id opts | s | | q off]; cbn [concerns]; try discriminate; intros C.
+  - unfold step. simpl. split; auto.
+    apply sess_get_set_other. intros Q. rewrite Q, N.eqb_refl in C. discriminate.
+  - rewrite step_restore_fst.
+    assert (q <> p) as NE by (intros Q; rewrite Q, N.eqb_refl in C; discriminate).
+    destruct (restore_state W t q off st) as [-> [-> | [-> _]]]; auto.
+    split; auto. now apply sess_get_del_other.
+Qed.
+
+Lemma restore_same_view W t p off a b :
+  same_view p a b ->
+  snd (restore W t p off a) = snd (restore W t p off b) /\
+  same_view p (fst (restore W t p off a)) (fst (restore W t p off b)).
+Proof.
+  intros [P [G [Ka Kb]]]. unfold restore. rewrite <- G, <- P.
+  destruct (sess_get p (st_sessions a)) as [[s td]|] eqn:GA; simpl.
+  - destruct (sess_expired W t td); simpl.
+    + split; auto. repeat split; simpl; auto.
+      * now rewrite !sess_get_del_same.
+      * now apply keys_del_nodup.
+      * now apply keys_del_nodup.
+    + destruct (after_offset off (st_packets a)); simpl; split; auto; repeat split; auto; congruence.
+  - split; auto. repeat split; auto; congruence.
+Qed.
+
+Lemma step_same_view W t o p a b :
+  concerns p o = true -> same_view p a b ->
+  snd (step W t o a) = snd (step W t o b) /\
+  same_view p (fst (step W t o a)) (fst (step W t o b)).
+Proof.
+  intros C V. destruct o as [k id opts | s | | q off].
+  - destruct V as [P [G [Ka Kb]]]. unfold step. simpl. destruct (loggable k); simpl; split; auto;
+      repeat split; simpl; auto. now rewrite P.
+  - destruct V as [P [G [Ka Kb]]]. simpl in C. apply N.eqb_eq in C. subst p.
+    unfold step. cbn [step_with fst snd st_sessions st_packets]. split; auto.
+    repeat split; cbn [st_sessions st_packets]; auto.
+    + now rewrite !sess_get_set_same.
+    + now apply keys_set_nodup.
+    + now apply keys_set_nodup.
+  - destruct V as [P [G [Ka Kb]]].
+    unfold step. cbn [step_with fst snd st_sessions st_packets]. split; auto.
+    repeat split; cbn [st_sessions st_packets].
+    + now rewrite P.
+    + unfold clean_sessions. rewrite !sess_get_filter by auto. now rewrite G.
+    + unfold clean_sessions. now apply NoDup_map_filter.
+    + unfold clean_sessions. now apply NoDup_map_filter.
+  - simpl in C. apply N.eqb_eq in C. subst q.
+    rewrite !step_restore_fst, !step_restore_snd.
+    destruct (restore_same_view W t p off a b V) as [R V']. split; auto. now rewrite R.
+Qed.
+
+Lemma many_sessions_gen W p h : forall a b,
+  same_view p a b ->
+  results_for p h (snd (run W h a)) = results_for p (proj p h) (snd (run W (proj p h) b)).
+Proof.
+  induction h as [|[t o] h IH]; intros a b V; auto.
+  unfold proj. simpl. destruct (concerns p o) eqn:C.
+  - fold (proj p h). unfold run. simpl. fold (run W h) (run W (proj p h)).
+    destruct (step_same_view W t o p a b C V) as [R V'].
+    unfold step in R, V'.
+    destruct (step_with clean_packets W t o a) as [a1 ra].
+    destruct (step_with clean_packets W t o b) as [b1 rb]. simpl in R, V'. subst rb.
+    specialize (IH a1 b1 V').
+    destruct (run W h a1) as [a2 rsa]. destruct (run W (proj p h) b1) as [b2 rsb]. simpl in *.
+    destruct o as [k id opts | s | | q off]; auto.
+    destruct ra as [r|]; auto. destruct (N.eqb q p); auto. now rewrite IH.
+  - fold (proj p h). unfold run at 1. simpl. fold (run W h).
+    destruct (step_other W t o p a C) as [P G].
+    pose proof (step_keys W t o a) as K.
+    unfold step in P, G, K.
+    destruct (step_with clean_packets W t o a) as [a1 ra]. simpl in P, G, K.
+    assert (same_view p a1 b) as V'.
+    { destruct V as [P' [G' [Ka Kb]]]. repeat split; auto; congruence. }
+    specialize (IH a1 b V').
+    destruct (run W h a1) as [a2 rsa]. simpl in *.
+    destruct o as [k id opts | s | | q off]; simpl in C; try discriminate; auto.
+    destruct ra; auto. rewrite C. auto.
+Qed.
+
+(** C08_many_sessions: what session [p] gets back does not depend on the persists and restores
+    of the other sessions sharing the log. *)
+Theorem many_sessions W p h :
+  results_for p h (snd (run W h st_empty)) =
+  results_for p (proj p h) (snd (run W (proj p h) st_empty)).
+Proof.
+  apply many_sessions_gen. repeat split; simpl; auto; constructor.
 Qed.
